@@ -89,6 +89,13 @@ func Handler4(req, resp *dhcpv4.DHCPv4) (*dhcpv4.DHCPv4, bool) {
 		log.Infof("requested server ID does not match this server's ID. Got %v, want %v", req.ServerIPAddr, v4ServerID)
 		return nil, true
 	}
+	if sid := req.ServerIdentifier(); sid != nil &&
+		!sid.Equal(net.IPv4zero) &&
+		!sid.Equal(v4ServerID) {
+		// The server identifier option names another server (RFC2131 §4.3.2): not for us either
+		log.Infof("requested server ID does not match this server's ID. Got %v, want %v", sid, v4ServerID)
+		return nil, true
+	}
 	resp.ServerIPAddr = make(net.IP, net.IPv4len)
 	copy(resp.ServerIPAddr[:], v4ServerID)
 	resp.UpdateOption(dhcpv4.OptServerIdentifier(v4ServerID))
